@@ -7,8 +7,9 @@ of /repo's stale .so files.
   dadi.DFE.PDFs_cython    <- DFE/PDFs_cython.c  (which #includes PDFs.c)
 
 Build output lives in /verif/.build/<sha256 of all inputs>/ (cached by content).  /repo is never written.
-Cython is not installed, so .pyx edits cannot be regenerated; the .pyx hashes are recorded so that a
-.pyx/.c divergence is visible in the evidence.
+Cython is not installed, so .pyx edits cannot be regenerated in general; the .pyx hashes are recorded so that a
+.pyx/.c divergence is visible in the evidence.  The one thing the wrappers decide themselves - which extents of the
+density they pass to the kernels - is carried over from the .pyx to a copy of the generated C (mc/pyxsync.py).
 """
 import hashlib
 import importlib.abc
@@ -53,9 +54,29 @@ def build(verbose=False):
     """Compile (if not cached) and return {modname: path_to_so}."""
     import numpy
     allsrc = sorted(set(sum(_EXT.values(), [])) | set(_EXTRA_DEPS))
-    key = _sha(allsrc)[:20]
+    key = _sha(allsrc + ['dadi/integration_c.pyx'])[:20]
     out = os.path.join(BUILD_ROOT, key)
     os.makedirs(out, exist_ok=True)
+    # the generated wrapper file follows the .pyx in the extents it passes to the kernels (see mc/pyxsync.py)
+    override = {}
+    try:
+        from mc import pyxsync
+        with open(os.path.join(REPO, 'dadi/integration_c.pyx')) as f:
+            pyx = f.read()
+        with open(os.path.join(REPO, 'dadi/integration_c.c')) as f:
+            ctext = f.read()
+        synced, changed = pyxsync.sync(pyx, ctext)
+        if changed:
+            dst = os.path.join(out, 'integration_c.synced.c')
+            if not os.path.exists(dst):
+                tmpc = dst + '.tmp%d' % os.getpid()
+                with open(tmpc, 'w') as f:
+                    f.write(synced)
+                os.replace(tmpc, dst)
+            override['dadi/integration_c.c'] = dst
+        _info['wrapper_extents_synced_from_pyx'] = sorted(changed)
+    except FileNotFoundError:
+        pass
     suffix = sysconfig.get_config_var('EXT_SUFFIX')
     inc = ['-I' + sysconfig.get_paths()['include'], '-I' + numpy.get_include(),
            '-I' + os.path.join(REPO, 'dadi'), '-I' + os.path.join(REPO, 'dadi', 'DFE')]
@@ -72,7 +93,7 @@ def build(verbose=False):
         tmp = so + '.tmp%d' % os.getpid()
         cmd = ['gcc', '-O2', '-fPIC', '-shared', '-w', '-fno-strict-aliasing',
                '-DNPY_NO_DEPRECATED_API=NPY_1_7_API_VERSION'] + inc + \
-              [os.path.join(REPO, s) for s in srcs] + ['-lm', '-o', tmp]
+              [override.get(s, os.path.join(REPO, s)) for s in srcs] + ['-lm', '-o', tmp]
         if verbose:
             print('[build]', ' '.join(cmd), file=sys.stderr)
         procs.append((mod, so, tmp, subprocess.Popen(cmd, stdout=subprocess.PIPE, stderr=subprocess.STDOUT)))
